@@ -607,6 +607,13 @@ impl World {
         pid
     }
 
+    /// wait() failing with ECHILD means somebody else has reaped the child: it is gone
+    pub fn reaped_elsewhere(&mut self, pid: u32) {
+        if self.procs[pid as usize].status.is_none() {
+            self.finish(pid, ExitStatus::Signaled(9), false);
+        }
+    }
+
     pub fn kill(&mut self, pid: u32, sig: u8) {
         self.log(LogEv::Kill { pid, sig });
         if self.procs[pid as usize].status.is_none() {
